@@ -4,7 +4,7 @@
 //! The macros take constants, so rustc evaluates them; what the engines can reach is the
 //! pair of `const fn`s each macro expands to (phase 1: sum of lengths, phase 2: fill a
 //! `[u8; LEN]` / `[T; LEN]`).  The harnesses call exactly that pair the way the macro does
-//! (`LEN` = result of phase 1, passed as the const generic of phase 2 through `dispatch!`)
+//! (`LEN` = result of phase 1 = the const generic of phase 2; one output length per harness)
 //! on symbolic pieces/separators, and compare with a reference concatenation written here
 //! (tied to the real `<[&str]>::concat` / `join` / `<[&[T]]>::concat` in the `SPEC.` harness).
 //! A handful of constant macro instances are compared with std at run time as a smoke step.
@@ -81,181 +81,383 @@ fn ref_join(p: &[&str], sep: &[u8]) -> Buf {
     o
 }
 
-/// phase 2 with `N` = the length phase 1 computed (what `const LEN` does in the macros)
-macro_rules! dispatch {
-    ($n:expr, $f:ident, $args:tt, [$($k:literal)*]) => {
-        match $n {
-            $($k => $f::<_, $k> $args,)*
-            _ => false,
-        }
-    };
+/// The bytes of an `ArrayStr<N>` (`struct ArrayStr<const N: usize>([u8; N])`, private field) without going
+/// through `as_str`, whose `core::str::from_utf8` costs CBMC more than the code under test
+/// (`as_str` itself is exercised in `c20_array_str_as_str`).  A one-field struct of size N has its
+/// field at offset 0.
+fn raw<const N: usize>(a: &konst_kernel::string::ArrayStr<N>) -> &[u8; N] {
+    assert!(core::mem::size_of::<konst_kernel::string::ArrayStr<N>>() == N);
+    unsafe { &*(a as *const konst_kernel::string::ArrayStr<N> as *const [u8; N]) }
 }
 
-fn concat_n<S: Src, const N: usize>(s: &mut S, arg: __StrConcatArg, want: &[u8]) -> bool {
+/// what a case saw, for the cover statements of its harness
+pub struct Seen {
+    pub n: usize,
+    pub lens: [usize; 3],
+    pub sep_len: usize,
+    pub multibyte: bool,
+}
+
+// Every case below does what the macro does — phase 1 computes the length, phase 2 is instantiated
+// with that length as its const generic — for ONE output length N per harness (a const generic
+// cannot be symbolic): inputs whose computed length is not N are assumed away *after* the
+// length obligation has been checked for them.
+
+fn concat_strs_case<S: Src, const N: usize>(s: &mut S) -> Seen {
+    let (a, b, c) = (BStr::<2>::any(s), BStr::<2>::any(s), BStr::<2>::any(s));
+    let all = [a.as_str(), b.as_str(), c.as_str()];
+    let n = s.upto(3);
+    let pieces = &all[..n];
+    let want = ref_concat(pieces);
+    // what `str_concat!` expands to
+    let arg = __NormalizeConcatArg(unsafe { lend_strs(pieces) }).conv();
+    let len = konst_kernel::string::concat_sum_lengths(arg);
+    chk!(s, len == want.n, "C20.concat_sum_lengths.eq_sum_of_lengths");
+    s.assume(len == N);
     let out = konst_kernel::string::concat_strs::<N>(arg);
-    // `as_str` re-validates with from_utf8 and panics on invalid UTF-8 (a failed check if it could)
-    let got = out.as_str();
-    chk!(s, eq_bytes(got.as_bytes(), want), "C20.concat_strs.eq_reference_concat");
-    true
+    chk!(s, eq_bytes(raw(&out), want.bytes()), "C20.concat_strs.eq_reference_concat");
+    Seen { n, lens: [a.len, b.len, c.len], sep_len: 0, multibyte: want.n > 0 && want.b[0] >= 0xC2 }
 }
-fn join_n<S: Src, const N: usize>(s: &mut S, arg: StrJoinArgs, want: &[u8]) -> bool {
+
+fn concat_chars_case<S: Src, const N: usize>(s: &mut S) -> Seen {
+    let all = [s.char(), s.char(), s.char()];
+    let n = s.upto(3);
+    let pieces = &all[..n];
+    let want = ref_concat_chars(pieces);
+    let arg = __NormalizeConcatArg(unsafe { lend_chars(pieces) }).conv();
+    let len = konst_kernel::string::concat_sum_lengths(arg);
+    chk!(s, len == want.n, "C20.concat_sum_lengths.chars.eq_sum_of_len_utf8");
+    s.assume(len == N);
+    let out = konst_kernel::string::concat_strs::<N>(arg);
+    chk!(s, eq_bytes(raw(&out), want.bytes()), "C20.concat_strs.chars.eq_reference_concat");
+    Seen { n, lens: [all[0].len_utf8(), all[1].len_utf8(), all[2].len_utf8()], sep_len: 0, multibyte: true }
+}
+
+fn join_case<S: Src, const N: usize>(s: &mut S, char_sep: bool) -> Seen {
+    let (a, b, c) = (BStr::<2>::any(s), BStr::<2>::any(s), BStr::<2>::any(s));
+    let all = [a.as_str(), b.as_str(), c.as_str()];
+    let n = s.upto(3);
+    let pieces = &all[..n];
+    let by_ref = s.bool();
+    let sp = BStr::<2>::any(s);
+    let ch = s.char();
+    let mut tmp = [0u8; 4];
+    // what `str_join!` expands to; the separator may be `&str`, `&&str`, `char` or `&char`
+    let (sep_bytes, sep_arg): (&[u8], __SepArg) = if char_sep {
+        (ch.encode_utf8(&mut tmp).as_bytes(), if by_ref { __MakeSepArg(&ch).conv() } else { __MakeSepArg(ch).conv() })
+    } else {
+        let sep: &'static str = unsafe { lend_str(sp.as_str()) };
+        (sp.as_bytes(), if by_ref { __MakeSepArg(&sep).conv() } else { __MakeSepArg(sep).conv() })
+    };
+    let want = ref_join(pieces, sep_bytes);
+    let arg = StrJoinArgs { sep: sep_arg, slice: unsafe { lend_strs(pieces) } };
+    let len = konst_kernel::string::join_sum_lengths(arg);
+    chk!(s, len == want.n, "C20.join_sum_lengths.eq_length_of_join");
+    s.assume(len == N);
     let out = konst_kernel::string::join_strs::<N>(arg);
-    let got = out.as_str();
-    chk!(s, eq_bytes(got.as_bytes(), want), "C20.join_strs.eq_reference_join");
-    true
+    chk!(s, eq_bytes(raw(&out), want.bytes()), "C20.join_strs.eq_reference_join");
+    Seen { n, lens: [a.len, b.len, c.len], sep_len: sep_bytes.len(), multibyte: sep_bytes.len() > 0 && sep_bytes[0] >= 0xC2 }
 }
-fn slices_n<S: Src, const N: usize>(s: &mut S, arg: &[&[u16]], want: &[u16]) -> bool {
-    let out: [u16; N] = konst_kernel::slice::concat_slices::<u16, N>(arg);
-    let mut same = want.len() == N;
+
+fn slice_concat_case<S: Src, const N: usize>(s: &mut S) -> Seen {
+    let rawv = [[s.u16(), s.u16()], [s.u16(), s.u16()], [s.u16(), s.u16()]];
+    let (l0, l1, l2) = (s.upto(2), s.upto(2), s.upto(2));
+    let all: [&[u16]; 3] = [&rawv[0][..l0], &rawv[1][..l1], &rawv[2][..l2]];
+    let n = s.upto(3);
+    let pieces = &all[..n];
+    // reference for `<[&[T]]>::concat`
+    let mut want = [0u16; 6];
+    let mut wn = 0;
+    let mut i = 0;
+    while i < pieces.len() {
+        let mut j = 0;
+        while j < pieces[i].len() {
+            want[wn] = pieces[i][j];
+            wn += 1;
+            j += 1;
+        }
+        i += 1;
+    }
+    // what `slice_concat!` expands to
+    let len = konst_kernel::slice::concat_sum_lengths(pieces);
+    chk!(s, len == wn, "C20.slice_concat_sum_lengths.eq_sum_of_lengths");
+    s.assume(len == N);
+    let out: [u16; N] = konst_kernel::slice::concat_slices::<u16, N>(pieces);
+    let mut same = true;
     let mut i = 0;
     while i < N {
-        if same && out[i] != want[i] {
+        if out[i] != want[i] {
             same = false;
         }
         i += 1;
     }
     chk!(s, same, "C20.concat_slices.eq_reference_concat");
-    true
+    Seen { n, lens: [l0, l1, l2], sep_len: 0, multibyte: false }
 }
 
+// ---- str_concat!, &str elements: 0..=3 pieces, each any valid UTF-8 string of <= 2 bytes
+
 harness! {
-    /// kind=bounded tier=quick bound="0..=3 string pieces, each any valid UTF-8 string of <=2 bytes (empty pieces and 2-byte chars included); output length = the computed sum (0..=6)"
-    #[kani::unwind(10)]
-    fn c20_str_concat_strs(s) {
-        let (a, b, c) = (BStr::<2>::any(s), BStr::<2>::any(s), BStr::<2>::any(s));
-        let all = [a.as_str(), b.as_str(), c.as_str()];
-        let n = s.upto(3);
-        let pieces = &all[..n];
-        let want = ref_concat(pieces);
-        // what `str_concat!` expands to
-        let arg = __NormalizeConcatArg(unsafe { lend_strs(pieces) }).conv();
-        let len = konst_kernel::string::concat_sum_lengths(arg);
-        chk!(s, len == want.n, "C20.concat_sum_lengths.eq_sum_of_lengths");
-        let ran = dispatch!(len, concat_n, (s, arg, want.bytes()), [0 1 2 3 4 5 6]);
-        chk!(s, ran, "C20.concat_strs.length_in_range");
-        cov!(s, n == 3 && want.n == 6 && want.b[0] >= 0xC2, "C20.cover.concat_three_full_multibyte");
-        cov!(s, n == 3 && a.len == 1 && b.len == 0 && c.len == 2, "C20.cover.concat_empty_piece_in_the_middle");
-        cov!(s, n == 0, "C20.cover.concat_empty_list");
+    /// kind=bounded tier=quick bound="0..=3 string pieces of <=2 bytes (any valid UTF-8) whose lengths sum to 0: the empty list and lists of empty pieces"
+    #[kani::unwind(6)]
+    fn c20_str_concat_strs_n0(s) {
+        let v = concat_strs_case::<_, 0>(s);
+        cov!(s, v.n == 0, "C20.cover.concat_empty_list");
+        cov!(s, v.n == 3, "C20.cover.concat_three_empty_pieces");
+    }
+}
+harness! {
+    /// kind=bounded tier=quick bound="0..=3 string pieces of <=2 bytes (any valid UTF-8, empty pieces included) whose lengths sum to 3"
+    #[kani::unwind(6)]
+    fn c20_str_concat_strs_n3(s) {
+        let v = concat_strs_case::<_, 3>(s);
+        cov!(s, v.n == 3 && v.lens[0] == 1 && v.lens[1] == 0 && v.lens[2] == 2, "C20.cover.concat_empty_piece_in_the_middle");
+        cov!(s, v.n == 2 && v.multibyte, "C20.cover.concat_n3_two_pieces_multibyte_first");
+        cov!(s, v.n == 3 && v.lens[0] == 1 && v.lens[1] == 1, "C20.cover.concat_n3_three_single_bytes");
+    }
+}
+harness! {
+    /// kind=bounded tier=quick bound="0..=3 string pieces of <=2 bytes (any valid UTF-8) whose lengths sum to 6: three full pieces"
+    #[kani::unwind(8)]
+    fn c20_str_concat_strs_n6(s) {
+        let v = concat_strs_case::<_, 6>(s);
+        cov!(s, v.n == 3 && v.multibyte, "C20.cover.concat_three_full_multibyte");
+    }
+}
+harness! {
+    /// kind=bounded tier=thorough bound="0..=3 string pieces of <=2 bytes whose lengths sum to 1"
+    #[kani::unwind(6)]
+    fn c20_str_concat_strs_n1(s) {
+        let v = concat_strs_case::<_, 1>(s);
+        cov!(s, v.n == 3 && v.lens[2] == 1, "C20.cover.concat_n1_last");
+    }
+}
+harness! {
+    /// kind=bounded tier=thorough bound="0..=3 string pieces of <=2 bytes whose lengths sum to 2"
+    #[kani::unwind(6)]
+    fn c20_str_concat_strs_n2(s) {
+        let v = concat_strs_case::<_, 2>(s);
+        cov!(s, v.n == 3 && v.lens[1] == 2, "C20.cover.concat_n2_middle");
+    }
+}
+harness! {
+    /// kind=bounded tier=thorough bound="0..=3 string pieces of <=2 bytes whose lengths sum to 4"
+    #[kani::unwind(7)]
+    fn c20_str_concat_strs_n4(s) {
+        let v = concat_strs_case::<_, 4>(s);
+        cov!(s, v.n == 3 && v.lens[0] == 2 && v.lens[1] == 0, "C20.cover.concat_n4_2_0_2");
+    }
+}
+harness! {
+    /// kind=bounded tier=thorough bound="0..=3 string pieces of <=2 bytes whose lengths sum to 5"
+    #[kani::unwind(8)]
+    fn c20_str_concat_strs_n5(s) {
+        let v = concat_strs_case::<_, 5>(s);
+        cov!(s, v.n == 3 && v.lens[1] == 1, "C20.cover.concat_n5_2_1_2");
     }
 }
 
+// ---- str_concat!, char elements: 0..=3 chars, any chars
+
 harness! {
-    /// kind=bounded tier=quick bound="0..=2 char elements, any chars (1..4 bytes each); output length = the computed sum (0..=8)"
+    /// kind=bounded tier=quick bound="0..=3 char elements (any chars) whose UTF-8 lengths sum to 4: one 4-byte char, 1+3, 2+2, 3+1, 1+1+2, ..."
+    #[kani::unwind(7)]
+    fn c20_str_concat_chars_n4(s) {
+        let v = concat_chars_case::<_, 4>(s);
+        cov!(s, v.n == 1, "C20.cover.concat_one_4byte_char");
+        cov!(s, v.n == 2 && v.lens[0] == 3, "C20.cover.concat_chars_3_1");
+        cov!(s, v.n == 3 && v.lens[1] == 2, "C20.cover.concat_chars_1_2_1");
+    }
+}
+harness! {
+    /// kind=bounded tier=quick bound="0..=3 char elements (any chars) whose UTF-8 lengths sum to 9: e.g. 4+4+1, 3+3+3, 2+3+4"
     #[kani::unwind(12)]
-    fn c20_str_concat_chars(s) {
-        let all = [s.char(), s.char()];
-        let n = s.upto(2);
-        let pieces = &all[..n];
-        let want = ref_concat_chars(pieces);
-        let arg = __NormalizeConcatArg(unsafe { lend_chars(pieces) }).conv();
-        let len = konst_kernel::string::concat_sum_lengths(arg);
-        chk!(s, len == want.n, "C20.concat_sum_lengths.chars.eq_sum_of_len_utf8");
-        let ran = dispatch!(len, concat_n, (s, arg, want.bytes()), [0 1 2 3 4 5 6 7 8]);
-        chk!(s, ran, "C20.concat_strs.chars.length_in_range");
-        cov!(s, n == 2 && want.n == 8, "C20.cover.concat_two_4byte_chars");
-        cov!(s, n == 2 && all[0].len_utf8() == 3 && all[1].len_utf8() == 2, "C20.cover.concat_chars_3_2");
-        cov!(s, n == 1 && want.n == 1, "C20.cover.concat_one_ascii_char");
+    fn c20_str_concat_chars_n9(s) {
+        let v = concat_chars_case::<_, 9>(s);
+        cov!(s, v.lens[0] == 2 && v.lens[1] == 3 && v.lens[2] == 4, "C20.cover.concat_chars_2_3_4");
+        cov!(s, v.lens[0] == 4 && v.lens[1] == 1, "C20.cover.concat_chars_4_1_4");
+    }
+}
+harness! {
+    /// kind=bounded tier=quick bound="0..=3 char elements whose UTF-8 lengths sum to 0: the empty list only"
+    #[kani::unwind(6)]
+    fn c20_str_concat_chars_n0(s) {
+        let v = concat_chars_case::<_, 0>(s);
+        cov!(s, v.n == 0, "C20.cover.concat_chars_empty_list");
+    }
+}
+harness! {
+    /// kind=bounded tier=thorough bound="0..=3 char elements (any chars) whose UTF-8 lengths sum to 12: three 4-byte chars"
+    #[kani::unwind(15)]
+    fn c20_str_concat_chars_n12(s) {
+        let v = concat_chars_case::<_, 12>(s);
+        cov!(s, v.n == 3, "C20.cover.concat_chars_4_4_4");
+    }
+}
+harness! {
+    /// kind=bounded tier=thorough bound="0..=3 char elements (any chars) whose UTF-8 lengths sum to 6"
+    #[kani::unwind(9)]
+    fn c20_str_concat_chars_n6(s) {
+        let v = concat_chars_case::<_, 6>(s);
+        cov!(s, v.n == 3 && v.lens[0] == 1 && v.lens[1] == 4, "C20.cover.concat_chars_1_4_1");
     }
 }
 
-harness! {
-    /// kind=bounded tier=quick bound="0..=3 string pieces of <=2 bytes, &str separator of <=2 bytes (empty and 2-byte-char separators included), passed by value and by reference; output length = the computed length (0..=10)"
-    #[kani::unwind(14)]
-    fn c20_str_join_strsep(s) {
-        let (a, b, c) = (BStr::<2>::any(s), BStr::<2>::any(s), BStr::<2>::any(s));
-        let sp = BStr::<2>::any(s);
-        let all = [a.as_str(), b.as_str(), c.as_str()];
-        let n = s.upto(3);
-        let pieces = &all[..n];
-        let want = ref_join(pieces, sp.as_bytes());
-        let sep: &'static str = unsafe { lend_str(sp.as_str()) };
-        // what `str_join!` expands to (separator given as `&str` or `&&str`)
-        let sep_arg = if s.bool() { __MakeSepArg(sep).conv() } else { __MakeSepArg(&sep).conv() };
-        let arg = StrJoinArgs { sep: sep_arg, slice: unsafe { lend_strs(pieces) } };
-        let len = konst_kernel::string::join_sum_lengths(arg);
-        chk!(s, len == want.n, "C20.join_sum_lengths.eq_length_of_join");
-        let ran = dispatch!(len, join_n, (s, arg, want.bytes()), [0 1 2 3 4 5 6 7 8 9 10]);
-        chk!(s, ran, "C20.join_strs.length_in_range");
-        cov!(s, n == 3 && want.n == 10 && sp.buf[0] >= 0xC2, "C20.cover.join_full_multibyte_sep");
-        cov!(s, n == 3 && sp.len == 0 && want.n == 3, "C20.cover.join_empty_sep");
-        cov!(s, n == 3 && a.len == 0 && b.len == 0 && c.len == 0 && sp.len == 1, "C20.cover.join_all_pieces_empty");
-        cov!(s, n == 1 && sp.len == 2 && want.n == a.len, "C20.cover.join_single_piece_no_sep");
-        cov!(s, n == 0 && sp.len == 2, "C20.cover.join_empty_list");
-    }
-}
+// ---- str_join!: 0..=3 pieces of <= 2 bytes; separator: &str of <= 2 bytes, or any char
 
 harness! {
-    /// kind=bounded tier=quick bound="0..=3 string pieces of <=2 bytes, char separator (any char, 1..4 bytes), passed by value and by reference; output length = the computed length (0..=14)"
-    #[kani::unwind(18)]
-    fn c20_str_join_charsep(s) {
-        let (a, b, c) = (BStr::<2>::any(s), BStr::<2>::any(s), BStr::<2>::any(s));
-        let ch = s.char();
-        let all = [a.as_str(), b.as_str(), c.as_str()];
-        let n = s.upto(3);
-        let pieces = &all[..n];
-        let mut tmp = [0u8; 4];
-        let want = ref_join(pieces, ch.encode_utf8(&mut tmp).as_bytes());
-        let sep_arg = if s.bool() { __MakeSepArg(ch).conv() } else { __MakeSepArg(&ch).conv() };
-        let arg = StrJoinArgs { sep: sep_arg, slice: unsafe { lend_strs(pieces) } };
-        let len = konst_kernel::string::join_sum_lengths(arg);
-        chk!(s, len == want.n, "C20.join_sum_lengths.char_sep.eq_length_of_join");
-        let ran = dispatch!(len, join_n, (s, arg, want.bytes()), [0 1 2 3 4 5 6 7 8 9 10 11 12 13 14]);
-        chk!(s, ran, "C20.join_strs.char_sep.length_in_range");
-        cov!(s, n == 3 && want.n == 14, "C20.cover.join_4byte_char_sep_full");
-        cov!(s, n == 2 && ch.len_utf8() == 3 && a.len == 0, "C20.cover.join_3byte_char_sep_empty_first");
-        cov!(s, n == 0, "C20.cover.join_char_sep_empty_list");
+    /// kind=bounded tier=quick bound="0..=3 string pieces of <=2 bytes, &str separator of <=2 bytes (by value / by reference), joined length 0: empty list, one empty piece, empty pieces with an empty separator"
+    #[kani::unwind(6)]
+    fn c20_str_join_strsep_n0(s) {
+        let v = join_case::<_, 0>(s, false);
+        cov!(s, v.n == 0 && v.sep_len == 2, "C20.cover.join_empty_list");
+        cov!(s, v.n == 1 && v.sep_len == 2, "C20.cover.join_single_empty_piece_no_sep");
+        cov!(s, v.n == 3 && v.sep_len == 0, "C20.cover.join_all_empty");
     }
 }
-
 harness! {
-    /// kind=bounded tier=quick bound="0..=3 slices of <=2 u16 elements each (any values, empty slices included); output length = the computed sum (0..=6)"
+    /// kind=bounded tier=quick bound="0..=3 string pieces of <=2 bytes, &str separator of <=2 bytes (empty and 2-byte-char separators included), joined length 4"
+    #[kani::unwind(7)]
+    fn c20_str_join_strsep_n4(s) {
+        let v = join_case::<_, 4>(s, false);
+        cov!(s, v.n == 3 && v.sep_len == 2 && v.multibyte, "C20.cover.join_all_pieces_empty_multibyte_sep");
+        cov!(s, v.n == 2 && v.sep_len == 1 && v.lens[0] == 1, "C20.cover.join_n4_two_pieces");
+        cov!(s, v.n == 3 && v.sep_len == 0, "C20.cover.join_n4_empty_sep");
+        cov!(s, v.n == 3 && v.sep_len == 1 && v.lens[0] == 0 && v.lens[1] == 2, "C20.cover.join_n4_leading_empty_piece");
+    }
+}
+harness! {
+    /// kind=bounded tier=quick bound="0..=3 string pieces of <=2 bytes, &str separator of <=2 bytes, joined length 6"
+    #[kani::unwind(9)]
+    fn c20_str_join_strsep_n6(s) {
+        let v = join_case::<_, 6>(s, false);
+        cov!(s, v.n == 3 && v.sep_len == 2 && v.lens[0] == 0 && v.lens[1] == 0 && v.multibyte, "C20.cover.join_n6_0_0_2_multibyte_sep");
+        cov!(s, v.n == 3 && v.sep_len == 1 && v.lens[1] == 2, "C20.cover.join_n6_1_2_1");
+        cov!(s, v.n == 2 && v.sep_len == 2, "C20.cover.join_n6_two_pieces");
+    }
+}
+harness! {
+    /// kind=bounded tier=thorough bound="0..=3 string pieces of <=2 bytes, &str separator of <=2 bytes, joined length 10: three full pieces and two 2-byte separators"
+    #[kani::unwind(13)]
+    fn c20_str_join_strsep_n10(s) {
+        let v = join_case::<_, 10>(s, false);
+        cov!(s, v.n == 3 && v.multibyte, "C20.cover.join_full_multibyte_sep");
+    }
+}
+harness! {
+    /// kind=bounded tier=thorough bound="0..=3 string pieces of <=2 bytes, &str separator of <=2 bytes, joined length 7"
     #[kani::unwind(10)]
-    fn c20_slice_concat(s) {
-        let raw = [[s.u16(), s.u16()], [s.u16(), s.u16()], [s.u16(), s.u16()]];
-        let (l0, l1, l2) = (s.upto(2), s.upto(2), s.upto(2));
-        let all: [&[u16]; 3] = [&raw[0][..l0], &raw[1][..l1], &raw[2][..l2]];
-        let n = s.upto(3);
-        let pieces = &all[..n];
-        // reference for `<[&[T]]>::concat`
-        let mut want = [0u16; 6];
-        let mut wn = 0;
-        let mut i = 0;
-        while i < pieces.len() {
-            let mut j = 0;
-            while j < pieces[i].len() {
-                want[wn] = pieces[i][j];
-                wn += 1;
-                j += 1;
-            }
-            i += 1;
-        }
-        // what `slice_concat!` expands to
-        let len = konst_kernel::slice::concat_sum_lengths(pieces);
-        chk!(s, len == wn, "C20.slice_concat_sum_lengths.eq_sum_of_lengths");
-        let ran = dispatch!(len, slices_n, (s, pieces, &want[..wn]), [0 1 2 3 4 5 6]);
-        chk!(s, ran, "C20.concat_slices.length_in_range");
-        cov!(s, n == 3 && wn == 6, "C20.cover.slice_concat_full");
-        cov!(s, n == 3 && l0 == 0 && l1 == 0 && l2 == 2, "C20.cover.slice_concat_leading_empty_slices");
-        cov!(s, n == 2 && wn == 0, "C20.cover.slice_concat_only_empty_slices");
-        cov!(s, n == 0, "C20.cover.slice_concat_empty_list");
+    fn c20_str_join_strsep_n7(s) {
+        let v = join_case::<_, 7>(s, false);
+        cov!(s, v.n == 3 && v.sep_len == 1 && v.lens[1] == 1, "C20.cover.join_n7_2_1_2");
+        cov!(s, v.n == 3 && v.sep_len == 2 && v.lens[0] == 1 && v.lens[1] == 1, "C20.cover.join_n7_1_1_1");
+    }
+}
+harness! {
+    /// kind=bounded tier=quick bound="0..=3 string pieces of <=2 bytes, char separator (any char, by value / by reference), joined length 6: e.g. three empty pieces and two 3-byte separators, 1+4+1, 2+2+2"
+    #[kani::unwind(9)]
+    fn c20_str_join_charsep_n6(s) {
+        let v = join_case::<_, 6>(s, true);
+        cov!(s, v.n == 3 && v.sep_len == 3, "C20.cover.join_3byte_char_sep_empty_pieces");
+        cov!(s, v.n == 2 && v.sep_len == 4, "C20.cover.join_4byte_char_sep");
+        cov!(s, v.n == 3 && v.sep_len == 1 && v.lens[1] == 0, "C20.cover.join_ascii_char_sep_empty_middle");
+    }
+}
+harness! {
+    /// kind=bounded tier=thorough bound="0..=3 string pieces of <=2 bytes, char separator (any char), joined length 14: three full pieces and two 4-byte separators"
+    #[kani::unwind(17)]
+    fn c20_str_join_charsep_n14(s) {
+        let v = join_case::<_, 14>(s, true);
+        cov!(s, v.n == 3 && v.sep_len == 4, "C20.cover.join_4byte_char_sep_full");
+    }
+}
+harness! {
+    /// kind=bounded tier=thorough bound="0..=3 string pieces of <=2 bytes, char separator (any char), joined length 9"
+    #[kani::unwind(12)]
+    fn c20_str_join_charsep_n9(s) {
+        let v = join_case::<_, 9>(s, true);
+        cov!(s, v.n == 3 && v.sep_len == 2, "C20.cover.join_n9_2byte_char_sep");
+    }
+}
+
+// ---- slice_concat!: 0..=3 slices of <= 2 u16 elements
+
+harness! {
+    /// kind=bounded tier=quick bound="0..=3 slices of <=2 u16 elements (any values) whose lengths sum to 0: the empty list and lists of empty slices"
+    #[kani::unwind(6)]
+    fn c20_slice_concat_n0(s) {
+        let v = slice_concat_case::<_, 0>(s);
+        cov!(s, v.n == 0, "C20.cover.slice_concat_empty_list");
+        cov!(s, v.n == 2, "C20.cover.slice_concat_only_empty_slices");
+    }
+}
+harness! {
+    /// kind=bounded tier=quick bound="0..=3 slices of <=2 u16 elements (any values, empty slices included) whose lengths sum to 3"
+    #[kani::unwind(6)]
+    fn c20_slice_concat_n3(s) {
+        let v = slice_concat_case::<_, 3>(s);
+        cov!(s, v.n == 3 && v.lens[0] == 0 && v.lens[1] == 1 && v.lens[2] == 2, "C20.cover.slice_concat_leading_empty_slice");
+        cov!(s, v.n == 2 && v.lens[0] == 2, "C20.cover.slice_concat_n3_two_slices");
+    }
+}
+harness! {
+    /// kind=bounded tier=quick bound="0..=3 slices of <=2 u16 elements (any values) whose lengths sum to 6: three full slices"
+    #[kani::unwind(8)]
+    fn c20_slice_concat_n6(s) {
+        let v = slice_concat_case::<_, 6>(s);
+        cov!(s, v.n == 3, "C20.cover.slice_concat_full");
+    }
+}
+harness! {
+    /// kind=bounded tier=thorough bound="0..=3 slices of <=2 u16 elements whose lengths sum to 2 (leading empty slices before the first element)"
+    #[kani::unwind(6)]
+    fn c20_slice_concat_n2(s) {
+        let v = slice_concat_case::<_, 2>(s);
+        cov!(s, v.n == 3 && v.lens[0] == 0 && v.lens[1] == 0, "C20.cover.slice_concat_two_leading_empty_slices");
     }
 }
 
 harness! {
-    /// kind=bounded tier=quick bound="SMOKE ONLY, not a proof: 14 constant macro instances (rustc evaluates them) compared with std concat/join/collect at run time"
-    #[kani::unwind(40)]
-    fn c20_macro_instances(s) {
-        use konst::slice::slice_concat;
-        use konst::string::{str_concat, str_join};
+    /// kind=bounded tier=quick bound="ArrayStr::<4>::as_str on the output of concat_strs for 2 pieces of exactly 2 bytes each (any valid UTF-8): same bytes, no panic"
+    #[kani::unwind(7)]
+    fn c20_array_str_as_str(s) {
+        let (a, b) = (BStr::<2>::any(s), BStr::<2>::any(s));
+        s.assume(a.len == 2 && b.len == 2);
+        let all = [a.as_str(), b.as_str()];
+        let arg = __NormalizeConcatArg(unsafe { lend_strs(&all) }).conv();
+        let out = konst_kernel::string::concat_strs::<4>(arg);
+        let st: &str = out.as_str();
+        chk!(s, same_slice(st.as_bytes(), raw(&out)), "C20.array_str.as_str.is_the_array");
+        chk!(s, st.len() == 4 && st.as_bytes()[0] == a.buf[0] && st.as_bytes()[3] == b.buf[1], "C20.array_str.as_str.bytes");
+        cov!(s, a.buf[0] >= 0xC2 && b.buf[0] < 0x80, "C20.cover.as_str_mixed");
+    }
+}
+
+harness! {
+    /// kind=bounded tier=quick bound="SMOKE ONLY, not a proof: 6 constant str_concat! instances (rustc evaluates them) compared with std concat/collect at run time"
+    #[kani::unwind(24)]
+    fn c20_macro_instances_concat(s) {
+        use konst::string::str_concat;
         const S: &[&str] = &["these ", "are ", "wörds"];
         const C: &[char] = &['a', 'é', '€', '😀'];
-        const COMMA: &str = ", ";
         chk!(s, eq_bytes(str_concat!(&["a", "é", ""]).as_bytes(), ["a", "é", ""].concat().as_bytes()), "C20.macro_instance.str_concat.literal_list");
         chk!(s, eq_bytes(str_concat!(S).as_bytes(), S.concat().as_bytes()), "C20.macro_instance.str_concat.const_list");
         chk!(s, eq_bytes(str_concat!(&[]).as_bytes(), b""), "C20.macro_instance.str_concat.empty_list");
         chk!(s, eq_bytes(str_concat!(&["", ""]).as_bytes(), ["", ""].concat().as_bytes()), "C20.macro_instance.str_concat.only_empty_pieces");
         chk!(s, eq_bytes(str_concat!(C).as_bytes(), C.iter().collect::<String>().as_bytes()), "C20.macro_instance.str_concat.chars");
         chk!(s, eq_bytes(str_concat!(&['q'; 3]).as_bytes(), b"qqq"), "C20.macro_instance.str_concat.char_array_repeat");
+        cov!(s, true, "C20.cover.macro_instances_concat_reached");
+    }
+}
+
+harness! {
+    /// kind=bounded tier=quick bound="SMOKE ONLY, not a proof: 5 constant str_join! and 4 constant slice_concat! instances (rustc evaluates them) compared with std join/concat at run time"
+    #[kani::unwind(24)]
+    fn c20_macro_instances_join_slice(s) {
+        use konst::slice::slice_concat;
+        use konst::string::str_join;
+        const S: &[&str] = &["these", "are", "wörds"];
+        const COMMA: &str = ", ";
         chk!(s, eq_bytes(str_join!(", ", &["foo", "bär", ""]).as_bytes(), ["foo", "bär", ""].join(", ").as_bytes()), "C20.macro_instance.str_join.str_sep");
         chk!(s, eq_bytes(str_join!(COMMA, S).as_bytes(), S.join(COMMA).as_bytes()), "C20.macro_instance.str_join.const_args");
         chk!(s, eq_bytes(str_join!('é', &["x", "", "y"]).as_bytes(), ["x", "", "y"].join("é").as_bytes()), "C20.macro_instance.str_join.multibyte_char_sep");
@@ -270,7 +472,7 @@ harness! {
         const PIECES: &[&[u8]] = &[b"ab", b"", b"cde"];
         let k4 = slice_concat!(u8, PIECES);
         chk!(s, eq_bytes(&k4, &PIECES.concat()), "C20.macro_instance.slice_concat.const_list");
-        cov!(s, true, "C20.cover.macro_instances_reached");
+        cov!(s, true, "C20.cover.macro_instances_join_slice_reached");
     }
 }
 
@@ -308,22 +510,57 @@ harness! {
     }
 }
 
+/// the CStr std builds from the first nul-terminated prefix of `b` (inputs without a nul are assumed away)
+fn std_cstr<'a, S: Src>(s: &mut S, b: &'a [u8]) -> &'a CStr {
+    match CStr::from_bytes_until_nul(b) {
+        Ok(c) => c,
+        Err(_) => {
+            s.assume(false);
+            unreachable!()
+        }
+    }
+}
+
 harness! {
-    /// kind=bounded tier=quick bound="every CStr std builds from a byte string of length 1..=5, all byte values (content 0..=4 bytes before the first nul, valid and invalid UTF-8)"
+    /// kind=bounded tier=quick bound="every CStr std builds from a byte string of length 1..=5, all byte values (content 0..=4 bytes before the first nul)"
     #[kani::unwind(9)]
-    fn c20_cstr_conversions(s) {
+    fn c20_cstr_to_bytes(s) {
         let raw: [u8; 5] = s.bytes();
         let len = s.upto(5);
-        let b = &raw[..len];
-        let c: &CStr = match CStr::from_bytes_until_nul(b) {
-            Ok(c) => c,
-            Err(_) => {
-                s.assume(false);
-                return;
-            }
-        };
+        let c = std_cstr(s, &raw[..len]);
         chk!(s, same_slice(cstr::to_bytes_with_nul(c), c.to_bytes_with_nul()), "C20.cstr.to_bytes_with_nul.eq_std");
         chk!(s, same_slice(cstr::to_bytes(c), c.to_bytes()), "C20.cstr.to_bytes.eq_std");
+        cov!(s, c.to_bytes().len() == 4, "C20.cover.cstr_to_bytes_4");
+        cov!(s, c.to_bytes().len() == 0 && len == 5, "C20.cover.cstr_empty_with_trailing_bytes");
+    }
+}
+
+harness! {
+    /// kind=bounded tier=quick bound="every CStr std builds from a byte string of length 1..=4, all byte values (content 0..=3 bytes: 1-, 2-, 3-byte chars and every invalid sequence of that size); std's to_str is from_utf8(to_bytes()), stated through hlib::utf8_ok (tied to core::str::from_utf8 in c03_spec_utf8_ok; direct comparison in the thorough twin c20_cstr_to_str_vs_std)"
+    #[kani::unwind(7)]
+    fn c20_cstr_to_str(s) {
+        let raw: [u8; 4] = s.bytes();
+        let len = s.upto(4);
+        let c = std_cstr(s, &raw[..len]);
+        let k = cstr::to_str(c);
+        let valid = utf8_ok(c.to_bytes());
+        chk!(s, k.is_ok() == valid, "C20.cstr.to_str.ok_iff_valid_utf8");
+        if let Ok(ks) = &k {
+            chk!(s, same_slice(ks.as_bytes(), c.to_bytes()), "C20.cstr.to_str.is_to_bytes");
+        }
+        cov!(s, c.to_bytes().len() == 3 && valid && raw[0] >= 0xE0, "C20.cover.cstr_to_str_3byte_char");
+        cov!(s, c.to_bytes().len() == 3 && !valid && raw[0] >= 0xE0, "C20.cover.cstr_to_str_invalid");
+        cov!(s, c.to_bytes().len() == 0, "C20.cover.cstr_to_str_empty");
+    }
+}
+
+harness! {
+    /// kind=bounded tier=thorough bound="every CStr std builds from a byte string of length 1..=5, all byte values (content 0..=4 bytes, valid and invalid UTF-8), against CStr::to_str itself"
+    #[kani::unwind(9)]
+    fn c20_cstr_to_str_vs_std(s) {
+        let raw: [u8; 5] = s.bytes();
+        let len = s.upto(5);
+        let c = std_cstr(s, &raw[..len]);
         let k = cstr::to_str(c);
         let e = c.to_str();
         chk!(s, k.is_ok() == e.is_ok(), "C20.cstr.to_str.ok_iff_std");
@@ -331,8 +568,7 @@ harness! {
             chk!(s, same_str(ks, es), "C20.cstr.to_str.same_str_as_std");
         }
         cov!(s, c.to_bytes().len() == 4 && e.is_ok() && raw[0] >= 0xF0, "C20.cover.cstr_to_str_4byte_char");
-        cov!(s, c.to_bytes().len() == 4 && e.is_err(), "C20.cover.cstr_to_str_invalid");
-        cov!(s, c.to_bytes().len() == 0 && len == 5, "C20.cover.cstr_empty_with_trailing_bytes");
+        cov!(s, c.to_bytes().len() == 4 && e.is_err(), "C20.cover.cstr_to_str_4_invalid");
     }
 }
 
